@@ -832,6 +832,25 @@ def p_slice_rotate(ev, st, ctx):
     return UNIT
 
 
+@prim("core::ptr::mut_ptr::<impl *mut T>::cast", "core::ptr::const_ptr::<impl *const T>::cast",
+      "core::ptr::mut_ptr::<impl *mut T>::cast_const", "core::ptr::const_ptr::<impl *const T>::cast_mut")
+def p_ptr_cast(ev, st, ctx):
+    """`p.cast::<U>()` is `p as *mut U`"""
+    val = ctx.args[0]
+    src_ty = ctx.argtys[0] if ctx.argtys else None
+    if isinstance(val, Ref) and src_ty is not None and ctx.dest_ty is not None and not ev._same_layout(src_ty, ctx.dest_ty):
+        return PrimV("castptr", (val, src_ty, ctx.dest_ty))
+    return val
+
+
+@prim("re:core::hash::impls::<impl core::hash::Hash for (bool|char|[iu](8|16|32|64|128|size))>::hash(_slice)?",
+      "re:core::hash::impls::<impl core::hash::Hash for \\[T\\]>::hash", "re:core::array::<impl core::hash::Hash for \\[T; N\\]>::hash",
+      "re:<core::num::Wrapping<.*> as core::hash::Hash>::hash")
+def p_hash_int(ev, st, ctx):
+    """feeding plain data to a hasher: no precondition; the hasher (a type parameter) takes the effect"""
+    return opaque_call(ev, st, ctx, "synthetic")
+
+
 @prim("core::slice::<impl [T]>::copy_within")
 def p_copy_within(ev, st, ctx):
     dst = as_slice(ev, st, ctx.args[0])
